@@ -7,7 +7,7 @@ CONSTANTS
   Kinds = {"ok", "refuse"}
   CutCodes <- Codes_one
   UpModes = {"fast"}
-  Requests <- Req_c02
+  Requests <- Req_full
   Routes <- Routes_all
   Entries = {"core", "handler"}
   Timeout = 2
